@@ -140,6 +140,36 @@ class Check:
                 self.report(byid[i], why, keyf)
         return verdicts
 
+    def binding_demo(self, module, mutants, **kw):
+        """Demonstrate that the judge is bound to the artefacts: `mutants` are (name, record) pairs,
+        each a corrupted copy of a record that was judged ok.  TLC must reject every one of them;
+        if a corrupted record is judged ok the check is vacuous there: machinery failure."""
+        if self.args.replay or not mutants:
+            return
+        recs = []
+        for k, (name, rec) in enumerate(mutants):
+            r = dict(rec)
+            r["id"] = "demo%02d" % k
+            recs.append(r)
+        verdicts, st = tlc.judge(module, recs, "demo_" + self.pid, **kw)
+        self.states += st["distinct"]
+        self.transitions += st["generated"]
+        out = {}
+        for k, (name, rec) in enumerate(mutants):
+            out[name] = verdicts["demo%02d" % k]
+        self.cover["binding_demonstration"] = out
+        # a single corruption can be semantically harmless (a redundant clause): per group of
+        # corruptions of the same record (name prefix before ':') at least one must be rejected
+        groups = {}
+        for n, v in out.items():
+            groups.setdefault(n.split(":")[0], []).append(v)
+        blind = sorted(g for g, vs in groups.items() if all(v == "ok" for v in vs))
+        self.cover["binding_demonstration_groups_not_rejected"] = blind
+        # corrupting an unsatisfiable or highly redundant formula can leave its meaning intact, so a
+        # few blind groups are tolerated; a judge that rejects (almost) nothing is not
+        if len(blind) * 4 > len(groups):
+            raise tlc.MachineryError("binding demonstration: every corruption of %r was judged ok" % blind)
+
     def report(self, record, why, keyf=None):
         if keyf is not None:
             key = keyf(record, why)
